@@ -31,10 +31,20 @@ PROP = 'C15'
 def build(s):
     a, b = s.wire('a', 4), s.wire('b', 1)
     q, n, c = s.wire('q', 4), s.wire('n', 4), s.wire('c', 3)
+    # a register in a second clock domain: its block is the FIRST clockable of the design, so that its domain is visited
+    # before the domain of the recorder
+    g = s.wire('g', 4)
+    one = s.wire('one', 1)
+
+    def body(bx):
+        Reg(bx, 'greg', a, g)
+    box = D.Box(s, 'dom2', {'a': a, 'one': one}, {'g': g}, body)
+    box.clockDriver = py4hw.ClockDriver('ck2', base=s.clockDriver, enable=one)
+    py4hw.Constant(s, 'one', 1, one)
     r = Reg(s, 'reg', a, q, enable=b)
     Not(s, 'inv', q, n)
     py4hw.Range(s, 'rng', n, 2, 0, c)
-    return {'a': a, 'b': b, 'q': q, 'n': n, 'c': c, 'reg': r}
+    return {'a': a, 'b': b, 'q': q, 'n': n, 'c': c, 'reg': r, 'g': g}
 
 
 WATCH = {
@@ -44,6 +54,7 @@ WATCH = {
     'duplicate q,q,a': lambda w: [w['q'], w['q'], w['a']],
     'port alias (reg.q port, q wire)': lambda w: [w['reg'].outPorts[0], w['q']],
     'in port and its wire': lambda w: [w['reg'].inPorts[0], w['a'], w['b']],
+    'register of a second clock domain': lambda w: [w['g'], w['q']],
 }
 
 # schedules: list of clk() call sizes; 'C' = clear() ; inputs are re-poked before every clk call
@@ -347,7 +358,7 @@ def tasks_for(tier):
     t = []
     for wname in WATCH:
         for sname in SCHED:
-            if quick and wname not in ('a,b,q', 'duplicate q,q,a', 'port alias (reg.q port, q wire)') and sname not in ('1x6', '3, clear, 2'):
+            if quick and wname not in ('a,b,q', 'duplicate q,q,a', 'port alias (reg.q port, q wire)', 'register of a second clock domain') and sname not in ('1x6', '3, clear, 2'):
                 continue
             t.append(('capture watch[%s] schedule[%s]' % (wname, sname), capture_task, {'watch': wname, 'sched': sname}))
     rl = [(['a1'], 5), (['a1', 'b1'], 3), (['c3'], 3), (['a1', 'c3'], 2), (['a1', 'a1'], 3), (['a1'], 0), (['d4'], 2),
